@@ -214,7 +214,10 @@ func (d *disconnectHandler) handleGracePeriodExpired() {
 			)...,
 		)
 
-		d.election.becomeFollower()
+		if !d.election.becomeFollower() {
+			// another detector already ended this term and ran the callback
+			return
+		}
 
 		d.election.mu.RLock()
 		onDemote := d.election.onDemote
@@ -343,7 +346,10 @@ func (e *kvElection) handleReconnectVerificationFailed(err error) {
 			)...,
 		)
 
-		e.becomeFollower()
+		if !e.becomeFollower() {
+			// another detector already ended this term and ran the callback
+			return
+		}
 
 		e.mu.RLock()
 		onDemote := e.onDemote
